@@ -203,6 +203,11 @@ end
 
 def accepts (c : Ctx) (s : S) (v : J) : Bool := (visit c s v).isSome
 
+/-- the value after `n` validations (each one must accept) -/
+def visitN (c : Ctx) (s : S) : Nat → J → Option J
+  | 0, v => some v
+  | n + 1, v => (visit c s v).bind (visitN c s n)
+
 /-! ### what the exclusion classes and the spec speak about -/
 
 mutual
